@@ -60,6 +60,16 @@ type Pipe struct {
 
 var errFault = errors.New("injected channel fault")
 
+// errCause is the cause the harness gives whenever it ends a context. A context ended with a cause
+// still reports context.Canceled / context.DeadlineExceeded from Err, which is what every property
+// speaks about; code that looks at context.Cause instead must not let the cause leak into results.
+var errCause = errors.New("operator pressed stop")
+
+func cancelCauseCtx() (context.Context, context.CancelFunc) {
+	ctx, cc := context.WithCancelCause(context.Background())
+	return ctx, func() { cc(errCause) }
+}
+
 // LibEnd is the channel.Channel handed to the Server or Client under test.
 type LibEnd struct{ p *Pipe }
 
